@@ -219,6 +219,9 @@ class Interp:
         elif isinstance(t, Flt): s.mem.store(addr, s.L.size(t), 0.0)
         else: s.mem.store(addr, s.L.size(t), 0)
 
+    def fcmp_sym(s, pred, a, b):
+        raise Unsupported('symbolic fcmp')
+
     def decide(s, n, feas):
         """choose among n alternatives; feas(i) -> bool feasibility (may be None = no solver needed)"""
         if s.dpos < len(s.prefix):
@@ -647,7 +650,8 @@ class Interp:
                         prev, cur = cur, tgt; break
                     elif op == 'fcmp':
                         a = s.val(env, it[3]); b = s.val(env, it[4]); pred = it[2]
-                        if not (isinstance(a, float) and isinstance(b, float)): raise Unsupported('symbolic fcmp')
+                        if not (isinstance(a, float) and isinstance(b, float)):
+                            env[it[1]] = s.fcmp_sym(pred, a, b); continue
                         un = a != a or b != b
                         base = {'eq': a == b, 'ne': a != b, 'lt': a < b, 'le': a <= b, 'gt': a > b, 'ge': a >= b}
                         if pred == 'ord': r = not un
